@@ -58,7 +58,7 @@ M = Monitor(
           "non-default K or lb > 0.  chromatic scaling: non-trivial = at least one row with non-zero saturation and "
           "(scaling needed, or zero rows, or explicit neutral point, or absolute capture, or dichromat).  distinct = hash "
           "of rounded inputs"),
-    budget={"quick": (16000, 45), "thorough": (600000, 600)},
+    budget={"quick": (16000, 45), "thorough": (400000, 600)},
     anchors=[("dreye.api.estimator", "ReceptorEstimator.hull_l1_scaling"),
              ("dreye.api.estimator", "ReceptorEstimator.hull_dist_scaling"),
              ("dreye.api.project", "alpha_for_B_with_P"),
@@ -168,8 +168,7 @@ def _chi(b):
 
 # ------------------------------------------------------------------ systems
 
-def _system(rng, i, rel, allow_matrix=True):
-    m = 2 + (i % 3)
+def _system(rng, m, rel, allow_matrix=True):
     n = int(rng.integers(m, m + 4))
     r = int(rng.integers(20))
     lbkind = "pos" if rng.integers(4) == 0 else "zero"
@@ -212,7 +211,7 @@ def _layout(B, layout):
 
 def gen_l1(rng, i):
     rel = bool(i % 4 != 3)
-    s = _system(rng, i // 4, rel)
+    s = _system(rng, 2 + (i // 4) % 3, rel)
     Mt, c0, lbv, ubv = _eff(s, rel)
     m, n = Mt.shape
     ext = float(np.max(np.sum(np.abs(Mt) * (ubv - lbv), axis=1)))
@@ -412,9 +411,8 @@ def _target_rows(rng, mode, k, ch, centre, m, other=None):
 
 def _gen_dist(rng, i, modes):
     mode = modes[i % len(modes)]
-    j = i // len(modes)
-    rel = bool(j % 3 != 2)
-    s = _system(rng, i, rel, allow_matrix=True)
+    rel = bool(rng.integers(3) != 0)
+    s = _system(rng, int(rng.integers(2, 5)), rel, allow_matrix=True)
     Mt, c0, lbv, ubv = _eff(s, rel)
     m, n = Mt.shape
     ch, _why = _chromatic_gamut(Mt, c0, lbv, ubv)
@@ -573,7 +571,6 @@ def chk_dist(inp, c):
         c.require(np.all(out[zero] == 0), "all-zero rows stay all-zero", mechanism="dist:zero-row-not-zero:" + relkind,
                   got=out[zero][:3])
     if not nzr.any():
-        c.require(True, "only zero rows")
         c.note("dist", {"state": state, "rows": int(len(B)), "all_zero": True})
         return
     tot_out = out[nzr].sum(axis=1)
@@ -594,7 +591,9 @@ def chk_dist(inp, c):
         a = np.sum(D_out[sat] * D_in[sat], axis=1) / np.sum(D_in[sat] ** 2, axis=1)
         perp = np.linalg.norm(D_out[sat] - a[:, None] * D_in[sat], axis=1)
         c.margin("dist hue residual (chromaticity units)", float(perp.max()), TOL_HUE_RESID)
-        c.require(np.all(a > 0), "hue direction from the neutral point is kept (not reversed, not collapsed)",
+        # (a per-row factor is resolved to ~1e-16 / saturation: judge the sign in chromaticity units)
+        c.require(np.sum(D_out[sat] * D_in[sat]) > 0 and np.all(a * s_in[sat] > -TOL_HUE_RESID),
+                  "hue direction from the neutral point is kept (not reversed, not collapsed)",
                   mechanism="dist:hue-reversed:" + ctx, factors=a[:6])
         c.require(perp.max() <= TOL_HUE_RESID, "every scaled chromaticity lies on the ray neutral -> original chromaticity",
                   mechanism="dist:hue-changed:" + ctx, worst=float(perp.max()))
@@ -622,8 +621,8 @@ def chk_dist(inp, c):
                       mechanism="dist:no-common-factor:" + ctx, spread=spread, amin=float(a[wc].min()),
                       amax=float(a[wc].max()))
         c.require(a.max() <= 1 + TOL_ALPHA_GT1, "saturations are contracted (common factor <= 1)",
-                             mechanism="dist:expands-saturation:" + ctx, alpha=float(a.max()),
-                             min_depth_in=float(dep_in.min()), classes=inp["classes"][:8])
+                  mechanism="dist:expands-saturation:" + ctx, alpha=float(a.max()),
+                  min_depth_in=float(dep_in.min()), classes=inp["classes"][:8])
     if np.any(~sat):
         grow = s_out[~sat] - s_in[~sat] * (1 + 1e-6)
         c.require(np.all(grow <= 1e-12), "rows in the neutral direction stay there",
@@ -657,8 +656,11 @@ def chk_dist(inp, c):
         if c.require(twin.shape == out[nzr].shape and np.all(np.isfinite(twin)), "twin run without the zero rows returns an array",
                      mechanism="dist:twin-shape"):
             dtw = float(np.max(np.abs(twin - out[nzr]))) / float(tot.max())
-            c.margin("dist zero rows do not influence the result", dtw, 1e-10)
-            c.require(dtw <= 1e-10, "all-zero rows do not influence how the other rows are scaled",
+            # rows within 1e-6 of the rim may or may not count as inside: 'unchanged' and 'contracted onto the rim'
+            # are both acceptable there and differ by up to ~1e-6
+            tol_tw = 1e-5 if state == "rim-band" else 1e-10
+            c.margin("dist zero rows do not influence the result", dtw, tol_tw)
+            c.require(dtw <= tol_tw, "all-zero rows do not influence how the other rows are scaled",
                       mechanism="dist:zero-rows-influence-factor:" + ("float" if B.dtype.kind == "f" else "int-dtype")
                       + (":neutral-explicit" if explicit else ":neutral-default"), max_rel_dev=dtw, alpha_with_zero_rows=alpha)
 
